@@ -45,13 +45,6 @@ pub mod error {
 ///      "type": "integer",
 ///      "format": "uint8"
 ///    },
-///    "list": {
-///      "type": "array",
-///      "items": {
-///        "type": "integer",
-///        "format": "uint8"
-///      }
-///    },
 ///    "pair": {
 ///      "oneOf": [
 ///        {
@@ -73,47 +66,49 @@ pub mod error {
 ///          "type": "null"
 ///        }
 ///      ]
-///    },
-///    "span": {
-///      "type": "array",
-///      "items": [
-///        {
-///          "type": "integer"
-///        },
-///        {
-///          "type": "string"
-///        }
-///      ],
-///      "maxItems": 2,
-///      "minItems": 2
-///    },
-///    "tags": {
-///      "type": [
-///        "array",
-///        "null"
-///      ],
-///      "items": {
-///        "type": "string"
-///      }
+///    }
+///  }
+///}
+/// ```
+/// </details>
+#[derive(::serde::Deserialize, ::serde::Serialize, Clone, Debug)]
+pub struct Record {
+    pub id: u8,
+    #[serde(default, skip_serializing_if = "::std::option::Option::is_none")]
+    pub pair: ::std::option::Option<(bool, i64)>,
+}
+impl ::std::convert::From<&Record> for Record {
+    fn from(value: &Record) -> Self {
+        value.clone()
+    }
+}
+///`Renamed`
+///
+/// <details><summary>JSON schema</summary>
+///
+/// ```json
+///{
+///  "type": "object",
+///  "properties": {
+///    "q": {
+///      "type": "boolean"
 ///    }
 ///  }
 ///}
 /// ```
 /// </details>
 #[derive(::serde::Deserialize, ::serde::Serialize, Clone, Debug, PartialEq)]
-pub struct Record {
-    pub id: u8,
-    #[serde(default, skip_serializing_if = "::std::vec::Vec::is_empty")]
-    pub list: ::std::vec::Vec<u8>,
+pub struct Renamed {
     #[serde(default, skip_serializing_if = "::std::option::Option::is_none")]
-    pub pair: ::std::option::Option<(bool, i64)>,
-    #[serde(default, skip_serializing_if = "::std::option::Option::is_none")]
-    pub span: ::std::option::Option<(i64, ::std::string::String)>,
-    #[serde(default, skip_serializing_if = "::std::option::Option::is_none")]
-    pub tags: ::std::option::Option<::std::vec::Vec<::std::string::String>>,
+    pub q: ::std::option::Option<bool>,
 }
-impl ::std::convert::From<&Record> for Record {
-    fn from(value: &Record) -> Self {
+impl ::std::convert::From<&Renamed> for Renamed {
+    fn from(value: &Renamed) -> Self {
         value.clone()
+    }
+}
+impl ::std::default::Default for Renamed {
+    fn default() -> Self {
+        Self { q: Default::default() }
     }
 }
